@@ -966,9 +966,11 @@ def inf_case(draw: Any) -> dict[str, Any]:
 
 @st.composite
 def case_strategy(draw: Any, no_inf: bool = False) -> dict[str, Any]:
-    kind = draw(st.sampled_from(["pair"] * 22 + ["ineq"] * 8 + ["numbers"] * 4 + ["vector"] * 6 + ["fexp"] + ([] if no_inf else ["inf"])))
+    kind = draw(st.sampled_from(["pair"] * 22 + ["ineq"] * 8 + ["numbers"] * 4 + ["vector"] * 6 + ["fexp", "dimkw"] + ([] if no_inf else ["inf"])))
     if kind == "fexp":
         return draw(fexp_case())
+    if kind == "dimkw":
+        return draw(dimkw_case())
     if kind == "inf":
         return draw(inf_case())
     if kind == "pair":
@@ -1001,6 +1003,42 @@ def _strip_float_zero(case: dict[str, Any]) -> tuple[dict[str, Any], bool]:
 # ------------------------------------------------------------------------------------------------
 # inequivalent dimensions that differ only by a NON-integral exponent written as a float (m**1.5 against m**2,
 # Hz**0.5 against a pure number): equal scale factors, so only the dimension check stands between them and acceptance
+
+
+@st.composite
+def dimkw_case(draw: Any) -> dict[str, Any]:
+    """Two QUANTITIES of inequivalent dimensions with the same scale factor, compared with an explicit dimension= keyword
+    (which the property says only gives a bare number its dimension)."""
+    pair = draw(st.sampled_from([("second", "meter"), ("newton", "joule"), ("meter", "second"), ("volt", "ampere"), ("kelvin", "second"),
+        ("hertz", "meter")]))
+    return {"kind": "dimkw", "units": list(pair), "num": draw(st.integers(2, 99)), "kw": draw(st.sampled_from(["lhs", "rhs"])),
+        "entry": draw(st.sampled_from(["assert_equal", "vector"]))}
+
+
+def judge_dimkw(case: dict[str, Any]) -> tuple[list[tuple[str, str]], list[str], bool]:
+    from sympy.physics import units as su
+    from symplyphysics import Quantity, QuantityVector
+    from symplyphysics.core.approx import assert_equal, assert_equal_vectors
+    ul, ur = (getattr(su, n) for n in case["units"])
+    a, b = Quantity(case["num"] * ul), Quantity(case["num"] * ur)
+    kwdim = a.dimension if case["kw"] == "lhs" else b.dimension
+    labels = ["dimkw:" + case["entry"], "dimkw:keyword=" + case["kw"]]
+
+    def call() -> Any:
+        if case["entry"] == "vector":
+            return assert_equal_vectors(QuantityVector([a, a]), QuantityVector([b, b]), dimension=kwdim)
+        return assert_equal(a, b, dimension=kwdim)
+
+    try:
+        outcome = _outcome(call)
+    except TypeError:
+        return [], labels + ["dimkw:signature-without-dimension"], False
+    labels.append("dimkw:outcome=" + outcome.split(":")[0])
+    if outcome == "pass":
+        return [("accepted-inequivalent-dimensions:dimension-keyword",
+            f"{case['entry']}({case['num']} {case['units'][0]}, {case['num']} {case['units'][1]}, dimension={kwdim}) passed: the keyword "
+            f"re-labelled a quantity")], labels, True
+    return [], labels, True
 
 
 @st.composite
@@ -1069,6 +1107,8 @@ def judge(case: dict[str, Any], excluded: frozenset[str] = frozenset()) -> tuple
         res, labels, nt = judge_inf(case)
     elif kind == "fexp":
         res, labels, nt = judge_fexp(case)
+    elif kind == "dimkw":
+        res, labels, nt = judge_dimkw(case)
     else:
         raise ValueError(kind)
     return res, labels + extra, nt
